@@ -1,0 +1,13 @@
+//go:build verif
+
+package cstate
+
+import (
+	"github.com/kardiachain/go-kardia/types"
+)
+
+// VerifValidateBlock exposes validateBlock (the uncached validation of a block against a chain state) to the
+// verification harness (property C13; add-only).
+func VerifValidateBlock(evpool EvidencePool, store Store, state LatestBlockState, block *types.Block) error {
+	return validateBlock(evpool, store, state, block)
+}
